@@ -353,6 +353,53 @@ func init() {
 			return Result{}, fmt.Errorf("authzen.go: native request literals not found")
 		}
 
+		// ---- the authorization model id: where it comes from, how it is handed on, and that EVERY native request
+		// literal built in this file carries it
+		var nativeModelIDs, modelIDSources, modelIDPassing []string
+		nativeTypes := map[string]bool{"openfgav1.CheckRequest": true, "openfgav1.BatchCheckRequest": true, "openfgav1.ListUsersRequest": true,
+			"openfgav1.StreamedListObjectsRequest": true, "openfgav1.ListObjectsRequest": true, "openfgav1.ExpandRequest": true}
+		passCallees := map[string]bool{"buildCheckRequest": true, "s.evaluateWithShortCircuit": true, "s.evaluateAll": true, "s.resolveTypesystem": true}
+		for _, d := range f.Decls {
+			fd, ok := d.(*ast.FuncDecl)
+			if !ok || fd.Body == nil {
+				continue
+			}
+			ast.Inspect(fd.Body, func(n ast.Node) bool {
+				switch x := n.(type) {
+				case *ast.CompositeLit:
+					if x.Type == nil || !nativeTypes[src(fset, x.Type)] {
+						return true
+					}
+					v := "<missing>"
+					for _, e := range x.Elts {
+						if kv, ok := e.(*ast.KeyValueExpr); ok && src(fset, kv.Key) == "AuthorizationModelId" {
+							v = src(fset, kv.Value)
+						}
+					}
+					nativeModelIDs = append(nativeModelIDs, fd.Name.Name+":"+strings.TrimPrefix(src(fset, x.Type), "openfgav1.")+":AuthorizationModelId="+v)
+				case *ast.AssignStmt:
+					if len(x.Lhs) == 1 && len(x.Rhs) == 1 {
+						l := src(fset, x.Lhs[0])
+						if l == "authorizationModelID" || l == "resolvedModelID" {
+							modelIDSources = append(modelIDSources, fd.Name.Name+":"+src(fset, x))
+						}
+					}
+				case *ast.CallExpr:
+					if passCallees[src(fset, x.Fun)] {
+						var as []string
+						for _, a := range x.Args {
+							as = append(as, src(fset, a))
+						}
+						modelIDPassing = append(modelIDPassing, fd.Name.Name+":"+src(fset, x.Fun)+"("+strings.Join(as, ", ")+")")
+					}
+				}
+				return true
+			})
+		}
+		if len(nativeModelIDs) == 0 {
+			return Result{}, fmt.Errorf("authzen.go: no native request literal found")
+		}
+
 		var stepSrc, stepPrefix, stepGuard []string
 		for _, s := range steps {
 			stepSrc = append(stepSrc, s.src)
@@ -402,6 +449,9 @@ func init() {
 		w("arguments of the merge call in ActionSearch", "actionSearchMergeArgs", actMergeArgs)
 		w("fields of the BatchCheckItem literal in ActionSearch", "actionSearchBatchItem", actItem)
 		w("fields of the CheckRequestTupleKey literal in ActionSearch", "actionSearchTupleKey", actTupleKey)
+		w("every native request literal built in authzen.go: <function>:<type>:AuthorizationModelId=<expression | <missing>>", "nativeModelIds", nativeModelIDs)
+		w("where the model id comes from: assignments to authorizationModelID / resolvedModelID per function", "modelIdSources", modelIDSources)
+		w("how the model id is handed on: calls of buildCheckRequest / evaluateWithShortCircuit / evaluateAll / resolveTypesystem", "modelIdPassing", modelIDPassing)
 		sb.WriteString("\nend OpenFGAVerif.Gen.Authzen\n")
 		return Result{Lean: sb.String(), Summary: map[string]interface{}{
 			"mergeSteps":       stepSrc,
@@ -411,6 +461,7 @@ func init() {
 			"buildTupleKey":    tupleKey,
 			"listUsersRequest": listUsersReq,
 			"streamedRequest":  streamedReq,
+			"nativeModelIds":   nativeModelIDs,
 			"shortCircuitLen":  len(shortSkel),
 			"evaluateAllLen":   len(allSkel),
 		}}, nil
